@@ -356,8 +356,9 @@ def decoderTable (B : Bindings) (fuel : Nat) (bs : Bytes) : Outcome (Nat × Opti
   | .ok (tag, r) =>
     match B.decoders.find? (fun e => e.key == tag) with
     | some e =>
-      match unmarshalGo B fuel (.named e.goType) r with
-      | .ok (v, _) => .ok (e.tag, some (e.tlName, v))
+      if e.tag ≠ tag then .ok (tag, none)        -- the selected decoder re-reads the id and compares it with ITS literal
+      else match unmarshalGo B fuel (.named e.goType) r with
+      | .ok (v, _) => .ok (tag, some (e.tlName, v))
       | .err _ => .ok (tag, none)                -- any error of the selected decoder → UnknownRequest
       | .panic p => .panic p
     | none => .ok (tag, none)
